@@ -4,6 +4,7 @@ import BFL.Bridge.Transc
 import Mathlib.Analysis.SpecialFunctions.Complex.Arg
 import Mathlib.Algebra.Order.ToIntervalMod
 import Mathlib.Analysis.Real.Pi.Bounds
+import Mathlib.Analysis.SpecialFunctions.Trigonometric.Bounds
 /-
 Helper lemmas for C19 (directional statistics) over ℝ.
 
@@ -229,5 +230,74 @@ theorem resultant_in_arc (a : Mat ℝ r c) (w : Vec ℝ c) (i : Fin r) (hc : 0 <
   have : Complex.arg S + m + k * (2 * π) - m - k * (2 * π) = Complex.arg S := by ring
   rw [this]
   exact hS.2
+
+/-! ### conditioning of the argument of a short resultant -/
+
+/-- `|sin(arg u)| ≤ |u − 1|` for `u ≠ 0` (the disc of radius `ρ` about `1` subtends the angle `arcsin ρ`) -/
+theorem abs_sin_arg_le (u : ℂ) (hu : u ≠ 0) : |Real.sin (Complex.arg u)| ≤ ‖u - 1‖ := by
+  have hn : 0 < ‖u‖ := norm_pos_iff.mpr hu
+  rw [Complex.sin_arg, abs_div, abs_of_pos hn, div_le_iff₀ hn]
+  apply abs_le_of_sq_le_sq _ (by positivity)
+  have h1 : ‖u - 1‖ ^ 2 = (u.re - 1) ^ 2 + u.im ^ 2 := by
+    rw [Complex.sq_norm, Complex.normSq_apply]; simp; ring
+  have h2 : ‖u‖ ^ 2 = u.re ^ 2 + u.im ^ 2 := by
+    rw [Complex.sq_norm, Complex.normSq_apply]; ring
+  rw [mul_pow, h1, h2]
+  nlinarith [sq_nonneg ((u.re - 1) * u.re + u.im ^ 2)]
+
+/-- a perturbation `e` of a complex number `z`, `|e| < |z|`, moves its argument (as an angle) by at
+    most `(π/2) |e| / |z|` -/
+theorem arg_perturb (z e : ℂ) (hz : z ≠ 0) (he : ‖e‖ < ‖z‖) :
+    ∃ n : ℤ, |Complex.arg (z + e) - Complex.arg z - n * (2 * π)| ≤ π / 2 * (‖e‖ / ‖z‖) := by
+  have hzn : 0 < ‖z‖ := norm_pos_iff.mpr hz
+  set u : ℂ := 1 + e / z with hu
+  have hzu : z + e = z * u := by rw [hu]; field_simp
+  have hu1 : ‖u - 1‖ = ‖e‖ / ‖z‖ := by rw [hu]; simp
+  have hρ : ‖e‖ / ‖z‖ < 1 := (div_lt_one hzn).mpr he
+  have hre : 0 < u.re := by
+    have : -(u - 1).re ≤ ‖u - 1‖ := by
+      have := Complex.abs_re_le_norm (u - 1)
+      linarith [neg_abs_le (u - 1).re, neg_le_abs (u - 1).re]
+    simp only [Complex.sub_re, Complex.one_re] at this
+    linarith
+  have hune : u ≠ 0 := fun h => by rw [h] at hre; simp at hre
+  have hφ : |Complex.arg u| < π / 2 := Complex.abs_arg_lt_pi_div_two_iff.mpr (Or.inl hre)
+  -- Jordan's inequality
+  have hj : 2 / π * |Complex.arg u| ≤ |Real.sin (Complex.arg u)| := by
+    have h := Real.mul_le_sin (abs_nonneg (Complex.arg u)) hφ.le
+    have hs : Real.sin |Complex.arg u| = |Real.sin (Complex.arg u)| := by
+      rcases abs_cases (Complex.arg u) with ⟨h1, h2⟩ | ⟨h1, h2⟩
+      · rw [h1, abs_of_nonneg (Real.sin_nonneg_of_nonneg_of_le_pi h2 (by linarith [abs_lt.mp hφ, Real.pi_pos]))]
+      · rw [h1, Real.sin_neg, abs_of_neg (Real.sin_neg_of_neg_of_neg_pi_lt h2 (by linarith [abs_lt.mp hφ, Real.pi_pos]))]
+    rw [hs] at h; exact h
+  have hbound : |Complex.arg u| ≤ π / 2 * (‖e‖ / ‖z‖) := by
+    have h3 := le_trans hj (abs_sin_arg_le u hune)
+    rw [hu1] at h3
+    have hpi := Real.pi_pos
+    have : |Complex.arg u| = π / 2 * (2 / π * |Complex.arg u|) := by field_simp
+    rw [this]
+    exact mul_le_mul_of_nonneg_left h3 (by positivity)
+  have hang := Complex.arg_mul_coe_angle hz hune
+  rw [← Real.Angle.coe_add, Real.Angle.angle_eq_iff_two_pi_dvd_sub] at hang
+  obtain ⟨k, hk⟩ := hang
+  refine ⟨k, ?_⟩
+  rw [hzu]
+  have : Complex.arg (z * u) - Complex.arg z - k * (2 * π) = Complex.arg u := by linarith
+  rw [this]; exact hbound
+
+/-- the resultant moves by at most `Σ |w_k| |a'_k − a_k|` when the samples move -/
+theorem resultant_perturb (a a' : Mat ℝ r c) (w : Vec ℝ c) (i : Fin r) :
+    ‖resultant a' w i - resultant a w i‖ ≤ ∑ k, |w k| * |a' i k - a i k| := by
+  unfold resultant
+  rw [← Finset.sum_sub_distrib]
+  refine le_trans (norm_sum_le _ _) (Finset.sum_le_sum (fun k _ => ?_))
+  rw [← mul_sub, norm_mul, Complex.norm_real, Real.norm_eq_abs]
+  apply mul_le_mul_of_nonneg_left _ (abs_nonneg _)
+  have h : Complex.exp ((a' i k : ℂ) * Complex.I) - Complex.exp ((a i k : ℂ) * Complex.I)
+      = Complex.exp ((a i k : ℂ) * Complex.I) * (Complex.exp (Complex.I * ((a' i k - a i k : ℝ) : ℂ)) - 1) := by
+    rw [mul_sub, mul_one, ← Complex.exp_add]
+    congr 2; push_cast; ring
+  rw [h, norm_mul, Complex.norm_exp_ofReal_mul_I, one_mul]
+  exact Real.norm_exp_I_mul_ofReal_sub_one_le
 
 end BFL.Dir
